@@ -313,6 +313,27 @@ TRAIT_NESTING = [
      "TermKind::Triple => { let t = self.triple().unwrap(); t.s().hash(state); t.p().hash(state); t.o().hash(state); }"),
 ]
 
+# Call expressions between the members of a mutual recursion that pass a STRICT sub-structure of what
+# the caller was given (a component of the quoted triple, an item of the collection, an arc of the node,
+# the inner pattern of an operator, a sub-expression, the EXISTS pattern): the *descending* edges of
+# the generated call graph.  Every other transcribed call between members hands on the same node
+# (`write_term -> write_bnode(term)`, `select -> self.filter(..)`): a *level* edge.  Every self call
+# whitelisted in SITES is descending.  Lean decides on the generated graph that the level edges
+# alone have no cycle (`call_graph_well_ranked`), i.e. every recursion passes a descending edge.
+DESCENDING = {
+    "turtle/src/serializer/nt.rs": {"write_term(w, t.s())", "write_term(w, t.p())", "write_term(w, t.o())"},
+    "sparql/src/exec.rs": {
+        "self.select(inner, graph_matcher, binding)", "self.select(left, graph_matcher, binding)",
+        "self.select(right, graph_matcher, binding)", "self.select(inner, &graph_matcher, binding)",
+        "self.select(inner, &[], binding)", "self.select(inner, &graph_matcher, Some(&b))",
+        "self.select(pattern, &[], None)"},
+    "jsonld/src/serializer/engine.rs": {"self.convert_rdf_object(&map[RDF_FIRST][0])"},
+    "turtle/src/serializer/_pretty.rs": {
+        "self.write_node(item)", "self.write_term(p)", "self.write_properties(s)@write_object",
+        "self.write_object(subject, predicate.unwrap(), t.o())", "self.write_object(subject, predicate, objects[0])",
+        "self.write_object(subject, predicate, obj)"},
+}
+
 FILES = sorted({s[1] for s in SITES} | {c[1] for c in CYCLES} | {t[1] for t in TRAIT_NESTING})
 
 
@@ -399,6 +420,13 @@ def extract_sites(repo):
     per_file = {}
     scanned = _scan_iterators(repo, set(FILES))
     cap = _pretty_cap(repo)
+    g_nodes = []    # "file::fn" (name level: that is how callees are resolved)
+    g_edges = set()  # (caller idx, callee idx, descending)
+    def node(rel, name):
+        k = "%s::%s" % (rel, name)
+        if k not in g_nodes:
+            g_nodes.append(k)
+        return g_nodes.index(k)
     for rel in FILES:
         text = read(repo, rel)  # noqa: F821
         s, fns = _functions(rel, text)
@@ -420,6 +448,26 @@ def extract_sites(repo):
                     continue
                 calls.setdefault(id(f), []).append((callee, expr))
         declared = {(fn, owner): (lean, wl) for lean, r, fn, owner, wl in SITES if r == rel}
+        # ---- the call graph of this file (every function with a body, every resolved call)
+        desc_here = DESCENDING.get(rel, set())
+        cyc_wl = set()
+        for c in CYCLES:
+            if c[1] == rel:
+                cyc_wl |= set(c[3])
+        for f in fns:
+            a = node(rel, f["name"])
+            for callee, expr in calls.get(id(f), []):
+                b = node(rel, callee)
+                if callee == f["name"]:
+                    wl0 = declared.get((f["name"], f["owner"]), (None, []))[1]
+                    down = expr in wl0
+                else:
+                    down = expr in cyc_wl and (expr in desc_here or (expr + "@" + f["name"]) in desc_here)
+                g_edges.add((a, b, down))
+        for lean, r, fn, owner, arm in TRAIT_NESTING:
+            if r == rel:
+                # recursion through trait dispatch on the components of a quoted triple: no textual edge
+                g_edges.add((node(rel, fn), node(rel, fn), True))
         # ---- direct self recursion
         seen_sites = set()
         for f in fns:
@@ -486,6 +534,32 @@ def extract_sites(repo):
                 raise ExtractError("%s: %s: the quoted-triple arm is no longer `%s`" % (rel, lean, arm))  # noqa: F821
             rows.append((lean, "recursiveOnNesting"))
             detail[lean] = {"class": "recursiveOnNesting"}
+    # a rank that decreases along every non-descending edge (longest path); all 0 if they have a cycle
+    level = {}
+    for a, b, down in g_edges:
+        if not down:
+            level.setdefault(a, set()).add(b)
+    rank = {}
+    cyclic = [False]
+    def rk(v, stack):
+        if v in rank:
+            return rank[v]
+        if v in stack:
+            cyclic[0] = True
+            return 0
+        stack.add(v)
+        r = 0
+        for w in level.get(v, ()):
+            r = max(r, rk(w, stack) + 1)
+        stack.discard(v)
+        rank[v] = r
+        return r
+    import sys
+    sys.setrecursionlimit(10000)
+    for v in range(len(g_nodes)):
+        rk(v, set())
+    ranks = [0 if cyclic[0] else rank.get(v, 0) for v in range(len(g_nodes))]
+    edges_sorted = sorted(g_edges)
     order = {lean: i for i, lean in enumerate(
         [x[0] for x in SITES] + [x[0] for x in CYCLES] + [x[0] for x in TRAIT_NESTING])}
     rows.sort(key=lambda r: order[r[0]])
@@ -504,8 +578,20 @@ def extract_sites(repo):
            "/-- `MAX_BNODE_NESTING` of turtle/src/serializer/_pretty.rs (the prettifier labels a blank node\n"
            "instead of nesting its `[ ... ]` deeper than this); `none`: the nesting is not capped -/\n",
            "def prettyBnodeNestingCap : Option Nat := %s\n\n" % ("none" if cap is None else "some %d" % cap),
+           "/-- every function with a body of the anchored files (name level, `file::fn`) -/\n",
+           "def functions : List String :=\n  [" + ",\n   ".join('"%s"' % n for n in g_nodes) + "]\n\n",
+           "/-- every call between functions of one anchored file: (caller, callee, descending) - indexes into\n"
+           "`functions`; descending = the call expression is transcribed as passing a strict sub-structure\n"
+           "(tools/extractors/c16.py SITES whitelists, DESCENDING) -/\n",
+           "def callEdges : List (Nat × Nat × Bool) :=\n  [" +
+           ",\n   ".join("(%d, %d, %s)" % (a, b, "true" if d else "false") for a, b, d in edges_sorted) + "]\n\n",
+           "/-- a hint (checked in Lean, not trusted): longest path along non-descending edges -/\n",
+           "def rankHint : List Nat :=\n  [" + ", ".join(str(r) for r in ranks) + "]\n\n",
            "end SophiaModel.Gen.RecursionSites\n"]
-    return "".join(out), {"sites": detail, "iterator_methods_scanned": scanned, "pretty_bnode_nesting_cap": cap}
+    return "".join(out), {"sites": detail, "iterator_methods_scanned": scanned, "pretty_bnode_nesting_cap": cap,
+                          "call_graph": {"functions": len(g_nodes), "edges": len(edges_sorted),
+                                         "descending": sum(1 for e in edges_sorted if e[2]),
+                                         "level_edges_cyclic": cyclic[0], "max_rank": max(ranks or [0])}}
 
 
 def _same_fn(f, callee_name, fns):
